@@ -187,11 +187,12 @@ impl Recv {
                 "lower than high water mark",
             ));
         }
-        self.credit_consumed_by(final_offset.into(), received, max_data)?;
-
+        // A redundant reset consumes no further credit; `end` does not reflect the final size
+        // the first one accounted for, so checking it again would count those bytes twice.
         if matches!(self.state, RecvState::ResetRecvd { .. }) {
             return Ok(false);
         }
+        self.credit_consumed_by(final_offset.into(), received, max_data)?;
         self.state = RecvState::ResetRecvd {
             size: final_offset.into(),
             error_code,
